@@ -952,6 +952,16 @@ func CheckMain(prop, tier string) int {
 		if exit == 0 && len(harnessErrs)*10 > len(sr.reports) {
 			return 2
 		}
+		// a violation seen in a run that no fresh-process replay reproduces is never a verdict, but it is not
+		// "held" either: the check says so instead of passing silently
+		if exit == 0 {
+			for _, h := range harnessErrs {
+				if strings.Contains(h, "did not reproduce") {
+					fmt.Println("HARNESS: a violation was observed that does not reproduce from its replay file; not a verdict (exit 2)")
+					return 2
+				}
+			}
+		}
 	}
 	if exit == 0 && len(nontrivFps) < 2 {
 		fmt.Println("HARNESS: fewer than 2 distinct non-trivial runs; the check explored nothing meaningful")
